@@ -4,6 +4,8 @@ CONSTANTS
   TU = 1
   TA = 3
   MaxT = 4
+  TickSteps = {}
+  DupMode = "ignore"
   ClearFirst = TRUE
 VIEW view
 INVARIANTS EveryAnnouncementAccepted DetectorOutlivesStation SessionMatchesRegistration ClearEmpties
